@@ -46,7 +46,10 @@ def evaluate(case):
     macros = [SHIPPED_MACROS] if case["macros"] else None
     # a valid_addr_range that contains no address of the vocabulary installs the tagging observer without tagging anything
     cfg = {"valid_addr_range": {"min": "fffffffff000", "max": "fffffffffff0"}} if case.get("transparent_addr_range") else None
-    doc = jasm_io.make_doc(case["pattern"], config=cfg)
+    mn_full, op_full = case.get("flags", [False, False])
+    doc = jasm_io.make_doc(case["pattern"], mn_full or None, op_full or None, config=cfg)
+    if mn_full or op_full:
+        ev.tags.append("flags=full")
     res = run_all_modes(doc, text, macros, combos=[("list", "all", False), ("list", "all", True), ("list", "first", False), ("list", "first", True)])
     ev.subcases = 4
     ev.tags = [f"mut={case['mut']}"] + [f"feat={f}" for f in case["features"]]
@@ -71,9 +74,9 @@ def evaluate(case):
     full_all = outs[("list", "all", False)]
     addr_all = outs[("list", "all", True)]
     in_fragment = "@any-deref" not in case["features"]
-    ref = Ref(NV, any_macro="@any")
+    ref = Ref(NV, bool(mn_full), bool(op_full), any_macro="@any")
     spans = ref.spans(case["ref_pattern"]) if in_fragment else None
-    nullable = Ref([], any_macro="@any").spans_empty(case["ref_pattern"]) if in_fragment else None
+    nullable = Ref([], bool(mn_full), bool(op_full), any_macro="@any").spans_empty(case["ref_pattern"]) if in_fragment else None
     pos = 0
     exp_addrs = []
     nonempty = 0
